@@ -4,6 +4,7 @@ import (
 	"bytes"
 	"fmt"
 	"go/ast"
+	"go/constant"
 	"go/scanner"
 	"go/token"
 	"go/types"
@@ -27,6 +28,7 @@ func init() {
 		Assumptions: []string{"text/template semantics; the template model mirrors cmd/protoc-gen-router/main.go newServiceModel and cmd/protoc-gen-wrapper/main.go", "grpc ClientStream/ServerStream contracts"},
 		Run:         runC12,
 		Controls: []Control{
+			{Name: "wrapper-import-path-drifts", File: "cmd/protoc-gen-wrapper/main.go", Old: "github.com/smart-core-os/sc-golang/pkg/trait/%s", New: "github.com/smart-core-os/sc-golang/pkg/traits/%s", Expect: "R12.9"},
 			{Name: "wrapper-strips-only-the-first-underscore", File: "cmd/protoc-gen-wrapper/main.go", Old: "\tpkg = strings.ReplaceAll(pkg, \"_\", \"\")\n", New: "\tpkg = strings.Replace(pkg, \"_\", \"\", 1)\n", Expect: "R12.8"},
 			{Name: "only-client-streams-wrapped", File: "pkg/middleware/name/defaults.go", Old: "\t\treturn handler(srv, &absentNameReplaceServerStream{", New: "\t\tif !info.IsClientStream {\n\t\t\treturn handler(srv, ss)\n\t\t}\n\t\treturn handler(srv, &absentNameReplaceServerStream{", Expect: "R12.5"},
 			{Name: "generator-rehomes-output-type", File: "cmd/protoc-gen-router/main.go", Old: "\t\t\tGoOutput: ident(g, method.Output.GoIdent),", New: "\t\t\tGoOutput: ident(g, protogen.GoIdent{GoName: method.Output.GoIdent.GoName, GoImportPath: file.GoImportPath}),", Expect: "R12.7"},
@@ -284,6 +286,8 @@ func compareTokens(a, b []string) (bool, string) {
 
 func runC12(c *an.Ctx) {
 	r128(c, "R12.8")
+	r129(c, "R12.9")
+	c.Min("R12.9", 2)
 	c.Min("R12.8", 1)
 	r121and2(c)
 	r123(c)
@@ -908,7 +912,8 @@ func r124as(c *an.Ctx, rule string) {
 					}
 				}
 			}
-			if l.Returns[0].S != "r.registry[name]#0" {
+			// a miss reads the zero value: returning nil there is the same result
+			if l.Returns[0].S != "r.registry[name]#0" && !(present == "false" && strings.HasPrefix(l.Returns[0].S, "nil")) {
 				ok, why = false, "Remove returns "+l.Returns[0].S
 			}
 			if deleted != (present == "true") {
@@ -1520,4 +1525,60 @@ func r128(c *an.Ctx, rule string) {
 	}
 	c.Check(same && len(a) >= 4, rule, "cmd|generators place their output alike", fb.Pos(), fmt.Sprintf("%d string operations, identical in both generators", len(a)),
 		"protoc-gen-router and protoc-gen-wrapper compute package directory and file name with different string operations ("+strings.TrimSpace(diff)+"): for some proto files the two generators write into different directories, and the checked-in routers/wrappers are not what the generators produce")
+}
+
+// r129: a generated file lives in the package it says it is in. Each generator calls
+// plugin.NewGeneratedFile(filename, importPath) with two formats; the import path must be the module path plus the
+// directory part of the filename format. If the two drift apart, references to the package's own declarations are
+// emitted qualified (and the file imports itself) for every service whose messages live in that package: the
+// generator no longer produces the checked-in files.
+func r129(c *an.Ctx, rule string) {
+	format := func(v ssa.Value) (string, bool) {
+		for _, s := range an.Sources(v) {
+			call, ok := s.(*ssa.Call)
+			if !ok || an.CalleeName(call) != "fmt.Sprintf" || len(call.Call.Args) == 0 {
+				continue
+			}
+			if k, isC := call.Call.Args[0].(*ssa.Const); isC && k.Value != nil && k.Value.Kind() == constant.String {
+				return constant.StringVal(k.Value), true
+			}
+		}
+		if k, isC := v.(*ssa.Const); isC && k.Value != nil && k.Value.Kind() == constant.String {
+			return constant.StringVal(k.Value), true
+		}
+		return "", false
+	}
+	for _, gen := range []string{"cmd/protoc-gen-router", "cmd/protoc-gen-wrapper"} {
+		fn := c.Prog.Func(gen, "", "generateFile")
+		if fn == nil {
+			c.Unk(rule, gen+"|generated files are placed in the package they declare", 0, "generateFile not found")
+			continue
+		}
+		n := 0
+		for _, f := range append([]*ssa.Function{fn}, an.TransparentCalleesOf(fn, 1)...) {
+			an.Instrs(f, func(in ssa.Instruction) {
+				call, ok := in.(*ssa.Call)
+				if !ok || !strings.HasSuffix(an.CalleeName(call), "protogen.Plugin).NewGeneratedFile") || len(call.Call.Args) != 3 {
+					return
+				}
+				n++
+				file, ok1 := format(call.Call.Args[1])
+				imp, ok2 := format(call.Call.Args[2])
+				cons := fmt.Sprintf("%s|generated file #%d is placed in the package it declares", gen, n)
+				if !ok1 || !ok2 {
+					c.Unk(rule, cons, call.Pos(), "the file name or import path given to NewGeneratedFile is not built from a constant format")
+					return
+				}
+				dir := file
+				if i := strings.LastIndex(file, "/"); i >= 0 {
+					dir = file[:i]
+				}
+				c.Check(imp == an.ModulePath+"/"+dir, rule, cons, call.Pos(), "import path = module path + directory of the file",
+					fmt.Sprintf("the file is written to %q but declared to be in package %q: its references to its own package come out qualified and it imports itself, so the generator does not produce the checked-in files", dir, imp))
+			})
+		}
+		if n == 0 {
+			c.Unk(rule, gen+"|generated files are placed in the package they declare", fn.Pos(), "no call of NewGeneratedFile found")
+		}
+	}
 }
